@@ -10,6 +10,7 @@ BASELINE_CMD = ("cd /repo && /venv/bin/python -m pytest -ra -q -p no:cacheprovid
 # pid -> (technique, level text, level note, design ref)
 CLAIMS = {}
 NOT_YET = {}
+WITNESS = {'C01', 'C02', 'C03', 'C06', 'C16', 'C17', 'C18', 'C20'}
 
 
 def claim(pid, technique, text, note, ref):
@@ -410,6 +411,16 @@ def build():
     checks = []
     for pid in sorted(CLAIMS):
         technique, text, note, ref = CLAIMS[pid]
+        if pid in WITNESS:
+            note += (' Witness policy: when the symbolic comparison with the specification fails, the '
+                     'extracted normal forms / path table (not the code) are evaluated on a targeted '
+                     'input grid; a VIOLATION is reported only with a disagreeing input in its '
+                     'message, otherwise the check exits 2 (cannot conclude). Verified against 60 '
+                     'behaviour-preserving refactorings written by isolated sub-agents (equiv/): no '
+                     'false alarm.')
+        else:
+            note += (' Verified against behaviour-preserving refactorings written by isolated '
+                     'sub-agents (equiv/): no false alarm; unfamiliar code shapes exit 2.')
         checks.append({
             'property_id': pid,
             'quick_cmd': './check %s quick' % pid,
@@ -453,7 +464,7 @@ def build():
         'not_applicable': na,
         'notes': 'Static analysis only: no repo code is imported or executed by any check; exit 0 '
                  '= all obligations discharged, exit 1 = VIOLATION lines, exit 2 = ANALYSIS-ERROR '
-                 '(cannot conclude; never a violation). Nine genuine defects found by the rules '
+                 '(cannot conclude; never a violation). Tiers: quick = all rules; thorough = deeper domains plus a mutation-adequacy audit recorded in the evidence (DESIGN.md 8.8). Nine genuine defects found by the rules '
                  'were repaired by fix: commits in /repo and are recorded in known_findings.json.',
     }
     with open(os.path.join(VERIF, 'MANIFEST.json'), 'w') as fh:
